@@ -3,7 +3,9 @@
 //
 //	http  <gun h|c> <fault> <status> <enabled> <depth> <notagonly> <tag> <path> [<opts: letters t d a>]
 //	      fault: ok refuse reset stall trunc truncrst badconnect connreset invalid hookok hookfail0 hookfail1
-//	      -> own=<samples reported by Shoot> hook=<samples reported by the Connect hook> [tags proto net id] shape=<timeout>:<shape> reqs=<requests the target saw>
+//	      -> own=<samples reported by Shoot> hook=<samples reported by the Connect hook> [tags proto net id] late=<k> shape=<timeout>:<shape> reqs=<requests the target saw>
+//	      (every gun-level observation prints the samples AS THEY ARE AT THE MOMENT OF Report - the
+//	      aggregator owns them from then on - and late=<number of samples written to after Report>)
 //	hscen <name> <step>,<step>...      step = <name>:<kind>, kind: s<status> reset trunc pp<status> tmpl pre
 //	      -> n=<samples> tags:proto:net ...
 //	gshoot <tag> <kind>                 kind: st<code> unknown badpayload
@@ -268,19 +270,20 @@ func runHTTP(f []string) string {
 		return "hang"
 	}
 	own := 0
-	var mine *netsample.Sample
-	for _, s := range ag.samples {
-		if s.Tags() == "HOOK" {
+	var mine *snap
+	for i := range ag.snaps {
+		if ag.snaps[i].tags == "HOOK" {
 			continue
 		}
 		own++
-		mine = s
+		mine = &ag.snaps[i]
 	}
 	reqs, _ := t.Counts()
 	desc := "-"
 	if mine != nil {
-		desc = fmt.Sprintf("%s %d %s %d", vh.HexS(mine.Tags()), mine.ProtoCode(), sampleNet(mine), mine.ID())
+		desc = fmt.Sprintf("%s %d %s %d", vh.HexS(mine.tags), mine.proto, mine.net, mine.id)
 	}
+	desc += fmt.Sprintf(" late=%d", lateWrites(ag.samples, ag.snaps))
 	errSeen := rc.doErr
 	if errSeen == nil {
 		errSeen = rc.bodyErr
@@ -414,11 +417,14 @@ type emptyStorage struct{}
 
 func (emptyStorage) Variables() map[string]any { return map[string]any{} }
 
-func samplesLine(ss []*netsample.Sample) string {
-	parts := []string{fmt.Sprintf("n=%d", len(ss))}
-	for _, s := range ss {
-		parts = append(parts, fmt.Sprintf("%s:%d:%s", vh.HexS(s.Tags()), s.ProtoCode(), sampleNet(s)))
+// samplesLine prints the samples as they were at the moment of Report, then how many of them
+// were written to afterwards.
+func samplesLine(ss []*netsample.Sample, snaps []snap) string {
+	parts := []string{fmt.Sprintf("n=%d", len(snaps))}
+	for _, s := range snaps {
+		parts = append(parts, fmt.Sprintf("%s:%d:%s", vh.HexS(s.tags), s.proto, s.net))
 	}
+	parts = append(parts, fmt.Sprintf("late=%d", lateWrites(ss, snaps)))
 	return strings.Join(parts, " ")
 }
 
@@ -463,17 +469,21 @@ func runHScen(f []string) string {
 	case <-time.After(5 * time.Second):
 		return "hang"
 	}
-	return samplesLine(ag.samples)
+	return samplesLine(ag.samples, ag.snaps)
 }
 
 // ---- gRPC guns ----
 
-type coreAggr struct{ samples []*netsample.Sample }
+type coreAggr struct {
+	samples []*netsample.Sample
+	snaps   []snap
+}
 
 func (r *coreAggr) Run(context.Context, core.AggregatorDeps) error { return nil }
 func (r *coreAggr) Report(s core.Sample) {
 	if ns, ok := s.(*netsample.Sample); ok {
 		r.samples = append(r.samples, ns)
+		r.snaps = append(r.snaps, takeSnap(ns))
 	}
 }
 
@@ -508,7 +518,7 @@ func runGShoot(f []string) string {
 		am.Reset(tag, helloMethod, map[string]string{"x-status": kind[2:]}, map[string]interface{}{"name": "x"})
 	}
 	g.Shoot(am)
-	return samplesLine(ag.samples)
+	return samplesLine(ag.samples, ag.snaps)
 }
 
 type gFailPre struct{}
@@ -566,7 +576,7 @@ func runGScen(f []string) string {
 		}
 	}
 	g.Shoot(sc)
-	return samplesLine(ag.samples)
+	return samplesLine(ag.samples, ag.snaps)
 }
 
 // ---- generator ----
